@@ -45,6 +45,8 @@ def configs(draw, tier):
             "enter_susp": draw(st.integers(0, 1)), "exit_susp": draw(st.integers(0, 1)),
             "body_susp": draw(st.integers(0, 2)), "tasks": tasks,
             "cancel": list(cancel) if cancel else None,
+            # the decorating instance is ALSO entered directly (async with) before the decorated calls
+            "enter_first": draw(st.sampled_from([False, False, False, True])),
             "choices": draw(st.lists(st.integers(0, 3), max_size=40))}
 
 
@@ -108,6 +110,11 @@ def run_config(case, impl, choices=None, default="rr"):
         deco = ClassManager()
 
     errors = {}
+    direct = []
+
+    async def enter_directly():
+        async with deco:
+            direct.append("inside")
 
     @deco
     async def fn(task, call, outcome):
@@ -134,6 +141,9 @@ def run_config(case, impl, choices=None, default="rr"):
 
     async def task(i):
         name = f"t{i}"
+        if case.get("enter_first") and i == 0:
+            current[name] = "direct"
+            await enter_directly()
         for c, outcome in enumerate(case["tasks"][i]):
             current[name] = c
             try:
@@ -228,6 +238,10 @@ def check_one(case, choices=None, default="rr"):
     problem = invariants(case, ra)
     if problem:
         return ra, problem
+    if case.get("enter_first"):
+        # contextlib's own managers cannot be re-created once entered directly (they drop their
+        # arguments): no differential reference for this history, the invariants above decide
+        return ra, None
     rs = run_config(case, "s", choices, default)
     if invariants(case, rs) is None and summary(ra) != summary(rs):
         return ra, ("outcomes-differ-from-contextlib-decorator", f"asyncstdlib={summary(ra)} contextlib={summary(rs)}")
